@@ -3326,6 +3326,7 @@ impl WasmGenerator {
                         if let Some(import_idx) = self.resolve_ext_function(name) {
                             self.emit_call_args_flattened_for_ext(name, args, func);
                             func.instruction(&W::Call(import_idx));
+                            Self::emit_len_words_to_elements(*name, args, func);
                         } else {
                             return Err(format!(
                                 "Unknown external function in Call: {}",
@@ -3434,6 +3435,7 @@ impl WasmGenerator {
                         if let Some(import_idx) = self.resolve_ext_function(name) {
                             self.emit_call_args_flattened_for_ext(name, args, func);
                             func.instruction(&W::Call(import_idx));
+                            Self::emit_len_words_to_elements(*name, args, func);
                         } else {
                             return Err(format!(
                                 "Unknown external function in CallIndirect: {}",
@@ -4499,6 +4501,24 @@ impl WasmGenerator {
                 std::iter::repeat_n(ValType::I64, word_count)
             })
             .collect()
+    }
+
+    /// `len(a)`: the host keeps an array as a plain vector of words without an element size, so
+    /// the imported `len` answers the number of WORDS. The element size is known here from the
+    /// type of the argument: divide, so that `len([(1.0,2.0),(3.0,4.0)])` is 2 as on the VM.
+    fn emit_len_words_to_elements(name: Symbol, args: &[(VPtr, TypeNodeId)], func: &mut Function) {
+        use wasm_encoder::Instruction as W;
+        if name.as_str() != "len" {
+            return;
+        }
+        let elem_words = match args.first().map(|(_, ty)| ty.to_type()) {
+            Some(Type::Array(elem)) => elem.word_size(),
+            _ => 1,
+        };
+        if elem_words > 1 {
+            func.instruction(&W::F64Const(elem_words as f64));
+            func.instruction(&W::F64Div);
+        }
     }
 
     /// Load a value and convert to i64 using numeric truncation (not bit reinterpretation).
